@@ -1,7 +1,7 @@
 #!/usr/bin/env python3
 """Re-run checks against an already confirmed seeded change:  tools/run_seeded.py <id> <prop> [<prop> ...]
-Applies seeded/<id>/patch.diff to /repo, runs `./check <prop>` (quick), records the outcome in
-seeded/<id>/meta.json, undoes the patch.  `tools/run_seeded.py --all` re-runs every seeded change against
+Applies seeded/<id>/patch.diff to a scratch worktree, runs a scratch copy of `./check <prop>` (quick) against it
+(tools/altrun.py), records the outcome in seeded/<id>/meta.json.  `tools/run_seeded.py --all` re-runs every seeded change against
 the properties listed in its meta.json."""
 import json, os, subprocess, sys
 ROOT = os.path.abspath(os.path.join(os.path.dirname(os.path.abspath(__file__)), ".."))
@@ -16,22 +16,16 @@ def run(mid, props):
     d = os.path.join(ROOT, "seeded", mid)
     meta = json.load(open(os.path.join(d, "meta.json")))
     props = props or meta.get("properties", [])
-    rc, out = sh("git -C /repo status --short")
-    if out.strip():
-        print("/repo not clean"); return 2
-    rc, out = sh("git -C /repo apply %s" % os.path.join(d, "patch.diff"))
-    if rc != 0:
-        print(mid, "patch does not apply:", out[:300]); return 2
+    sys.path.insert(0, os.path.join(ROOT, "tools"))
+    import altrun
     try:
-        for p in props:
-            rc, out = sh("./check %s --tier quick" % p, cwd=ROOT)
-            viol = [l for l in out.split("\n") if l.startswith("VIOLATION")]
-            meta.setdefault("checks", {})[p] = {"exit": rc, "violations": len(viol), "first": viol[:2],
-                                                 "summary": [l for l in out.split("\n") if l.startswith(p + " quick")][:1]}
-            print(mid, p, "exit", rc, "violations", len(viol), viol[:1])
-    finally:
-        sh("git -C /repo checkout -- .")
-        sh("python3 %s" % os.path.join(ROOT, "tools", "gen_tables.py"))
+        with altrun.Alt(mid, os.path.join(d, "patch.diff")) as alt:
+            for p in props:
+                r, out = alt.check(p)
+                meta.setdefault("checks", {})[p] = r
+                print(mid, p, "exit", r["exit"], "violations", r["violations"], r["first"][:1], flush=True)
+    except RuntimeError as ex:
+        print(mid, ex); return 2
     meta["properties"] = sorted(set(meta.get("properties", []) + props))
     meta["detected_by"] = sorted(p for p, r in meta["checks"].items() if r["exit"] == 1)
     json.dump(meta, open(os.path.join(d, "meta.json"), "w"), indent=1)
